@@ -232,7 +232,9 @@ def run(ctx):
             continue
         ctx.evaluations += 1
         t0, r0 = regs[0]
-        deprecated = lambda t: any(d in t for d in ('os.name', 'sys.platform', 'platform.version', 'platform.machine', 'platform.python_implementation', ' python_implementation', '(python_implementation')) or t.startswith('python_implementation')
+        import re
+        dep_re = re.compile(r'os\.name|sys\.platform|platform\.version|platform\.machine|platform\.python_implementation|(?<![A-Za-z_.])python_implementation')
+        deprecated = lambda t: dep_re.search(t) is not None
         for t, r in regs[1:]:
             ctx.oracle_cases += 1
             if not deprecated(t) and sess.ask(['rel', str(r0), str(r)])[1] != 'T':
